@@ -30,6 +30,12 @@
                                                                        deadline_exact, deadline_is_spec
    Thread::join returns the function's result after it has finished    join_returns_result_after_finish,           [P]
                                                                        thread_result
+   GRANULARITY of the model (not a clause of the property; round 4)    fine_signal_accesses_under_mutex,           [G]
+     one move = one primitive call + the thread-local code after it    fine_monitor_accesses_under_mutex,
+     is no restriction: the fine machine (SyncFine.v) makes every      fine_access_exclusive, fine_flag_stable,
+     read / write of the two `signaled` flags a move of its own        fine_granularity_adds_no_behaviours,
+                                                                       fine_quiescent_is_coarse, fine_completes,
+                                                                       fine_all_ok, fine_monitor_race_under_foreign_unlock
 
    [L] = a theorem about libnstd's own logic (flag handling, loops, deadline arithmetic) running on the modelled
          primitives.
@@ -38,6 +44,23 @@
          theorems restate (trylock_never_blocks literally) or follow in a few steps from the rules of
          Sched.v for pthread_mutex_* (recursive) / sem_* / pthread_create / pthread_join; what they add is
          that the wrapper reaches those rules with the right arguments in every reachable state.
+
+   [G] = about the FINE machine of SyncFine.v, in which a thread whose pthread_mutex_lock / pthread_cond_wait returned in
+         front of an access to Signal::signaled or Monitor::signaled only installs the new primitive state; the access
+         (a read, a write; Monitor::wait's test-and-clear is two) is the thread's next move, and moves of other threads and
+         of the clock may fall in between.  Proved: such a thread owns the guarding mutex (Signal: always; Monitor: unless
+         some thread called Monitor::unlock while ANOTHER thread owned the monitor - the sticky ghost flag foreign_unlock;
+         MM is a default-type mutex that the client locks and unlocks, glibc does not owner-check it), so at most one thread
+         per flag stands in front of an access and no move of another thread changes the flag; every fine run is matched
+         by a coarse run (reach) whose state agrees with the COMPLETION of the fine state (pending accesses performed) on all
+         fields but the write-only ghost `mark`, and whose history equals the completed fine history up to swapping adjacent
+         INDEPENDENT events (different threads, at least one of them emitted by a deferred access, not both of the Signal
+         class, not both of the Monitor-flag class).  Equality of histories is false: ex_fine_log_differs.  The six history
+         predicates of SyncSpec.v do not see such swaps and are suffix-closed, hence fine_all_ok: they hold of the history of
+         every fine-reachable state with foreign_unlock = false.  The hypothesis is necessary for the Monitor half:
+         fine_monitor_race_under_foreign_unlock (one set(), two waits return true).  So the [L] theorems about Monitor
+         above, stated "for any scripts" at coarse granularity, are at fine granularity theorems about clients that never
+         unlock a monitor they do not own (Monitor::wait without owning the monitor is a TFault in Sched.v already).
 
    "stays blocked" is stated as absence of stuck states: whenever the bad configuration holds, a named
    thread has an enabled step that ends it (the schedulers of the model are arbitrary, so no fairness
@@ -61,6 +84,7 @@
    return code); ex_monitor_stolen_signal below runs that schedule. *)
 From Coq Require Import ZArith List Bool Arith.
 From Sync Require Import Sched SyncSpec SyncModel SyncArith SyncInv SyncTrace SyncSignal SyncTimed SyncMonitor SyncTheorems SyncUnrepaired.
+From Sync Require Import SyncFine SyncFineLocal SyncFineSim SyncFineInv SyncFineMain SyncFineCor SyncFineTrace.
 Import ListNotations.
 Local Open Scope Z_scope.
 
@@ -219,6 +243,82 @@ Theorem thread_result : forall scripts started s0 v0 sched, 0 <= v0 -> forall t 
 Proof. exact thread_result_l. Qed.
 Print Assumptions thread_result.
 
+(* ---------------- granularity: the fine machine (SyncFine.v) ---------------- *)
+(* a thread standing in front of an access to Signal::signaled owns the Signal's mutex and is running - any scripts *)
+Theorem fine_signal_accesses_under_mutex : forall scripts started s0 v0 fsched t,
+  let fw := freach scripts started s0 v0 fsched in
+  fclass_of (fp fw t) = KSig -> m_owner (mtx (ps (base fw)) SM) = Some t /\ st (ps (base fw)) t = TRun.
+Proof. exact fine_signal_accesses_under_mutex_l. Qed.
+Print Assumptions fine_signal_accesses_under_mutex.
+
+(* the same for Monitor::signaled, for clients that never unlock a monitor another thread owns *)
+Theorem fine_monitor_accesses_under_mutex : forall scripts started s0 v0 fsched t,
+  let fw := freach scripts started s0 v0 fsched in
+  fclass_of (fp fw t) = KMon -> foreign_unlock fw = false ->
+  m_owner (mtx (ps (base fw)) MM) = Some t /\ st (ps (base fw)) t = TRun.
+Proof. exact fine_monitor_accesses_under_mutex_l. Qed.
+Print Assumptions fine_monitor_accesses_under_mutex.
+
+Theorem fine_access_exclusive : forall scripts started s0 v0 fsched t u,
+  let fw := freach scripts started s0 v0 fsched in
+  (fclass_of (fp fw t) = KSig -> fclass_of (fp fw u) = KSig -> t = u) /\
+  (foreign_unlock fw = false -> fclass_of (fp fw t) = KMon -> fclass_of (fp fw u) = KMon -> t = u).
+Proof. exact fine_access_exclusive_l. Qed.
+Print Assumptions fine_access_exclusive.
+
+(* while t stands in front of its access, no move other than t's own changes the flag *)
+Theorem fine_flag_stable : forall scripts started s0 v0 fsched t mv,
+  let fw := freach scripts started s0 v0 fsched in
+  mv <> Run t ->
+  (fclass_of (fp fw t) = KSig -> sigf (base (fstep fw mv)) = sigf (base fw)) /\
+  (fclass_of (fp fw t) = KMon -> foreign_unlock (fstep fw mv) = false -> monf (base (fstep fw mv)) = monf (base fw)).
+Proof. exact fine_flag_stable_l. Qed.
+Print Assumptions fine_flag_stable.
+
+(* MAIN: every fine run is matched by a coarse run; c = the fine state with its pending accesses performed *)
+Theorem fine_granularity_adds_no_behaviours : forall scripts started s0 v0 fsched,
+  let fw := freach scripts started s0 v0 fsched in
+  foreign_unlock fw = false ->
+  exists sched c, let w := reach scripts started s0 v0 sched in
+    complete_of fw c /\ agree w c /\ tr_eq (trace w) (trace c).
+Proof. exact fine_granularity_adds_no_behaviours_l. Qed.
+Print Assumptions fine_granularity_adds_no_behaviours.
+
+Theorem fine_quiescent_is_coarse : forall scripts started s0 v0 fsched,
+  let fw := freach scripts started s0 v0 fsched in
+  foreign_unlock fw = false -> quiescent fw ->
+  exists sched, let w := reach scripts started s0 v0 sched in agree w (base fw) /\ tr_eq (trace w) (trace (base fw)).
+Proof. exact fine_quiescent_is_coarse_l. Qed.
+Print Assumptions fine_quiescent_is_coarse.
+
+(* every fine state becomes quiescent by running its pending threads: at most 3 moves, the history only grows *)
+Theorem fine_completes : forall scripts started s0 v0 fsched,
+  let fw := freach scripts started s0 v0 fsched in
+  foreign_unlock fw = false ->
+  exists moves sched, (length moves <= 3)%nat /\
+    let fw2 := frun_all fw moves in let w := reach scripts started s0 v0 sched in
+    quiescent fw2 /\ foreign_unlock fw2 = false /\ (exists evs, trace (base fw2) = evs ++ trace (base fw)) /\
+    agree w (base fw2) /\ tr_eq (trace w) (trace (base fw2)).
+Proof. exact fine_completes_l. Qed.
+Print Assumptions fine_completes.
+
+(* the six history predicates, literally, of every fine-reachable history *)
+Theorem fine_all_ok : forall scripts started s0 v0 fsched, 0 <= v0 ->
+  let fw := freach scripts started s0 v0 fsched in
+  foreign_unlock fw = false -> all_ok s0 v0 (trace (base fw)) = [true; true; true; true; true; true].
+Proof. exact fine_all_ok_l. Qed.
+Print Assumptions fine_all_ok.
+
+(* the hypothesis foreign_unlock = false is necessary for the Monitor half *)
+Theorem fine_monitor_race_under_foreign_unlock :
+  let fw := freach race_scripts (fun _ => true) false 0 race_sched in
+  foreign_unlock fw = true /\ mon_sets (trace (base fw)) = 1 /\ mon_waits (trace (base fw)) = 2 /\
+  mon_ok (trace (base fw)) = false /\
+  trace (base fw) = [EvRet 1%nat MonWait 1; EvRet 0%nat MonWait 1; EvRet 3%nat MonUnlock 0; EvExit 2%nat 102;
+                     EvRet 2%nat MonSet 0; EvMonSet 2%nat; EvRet 1%nat MonLock 0; EvRet 0%nat MonLock 0].
+Proof. exact fine_monitor_race_witness. Qed.
+Print Assumptions fine_monitor_race_under_foreign_unlock.
+
 (* ================= non-vacuity: concrete schedules that meet the hypotheses / exercise the events ================= *)
 Definition all_started (_ : tid) := true.
 Definition only0 (t : tid) := Nat.eqb t 0%nat.
@@ -334,4 +434,77 @@ Definition join_sc := sc3 [ThStart 1%nat; ThJoin 1%nat] [CsEnter] [].
 Example ex_join_history :
   trace (reach join_sc only0 false 0 (runs 0%nat 3%nat ++ runs 1%nat 2%nat ++ runs 0%nat 1%nat))
   = [EvRet 0%nat (ThJoin 1%nat) 101; EvJoin 0%nat 1%nat 101; EvExit 1%nat 101; EvRet 1%nat CsEnter 1; EvRet 0%nat (ThStart 1%nat) 1].
+Proof. vm_compute. reflexivity. Qed.
+
+(* ---------------- fine machine ---------------- *)
+(* Signal: the setter's lock returned, its write is pending (FSigWrite) and it owns SM; meanwhile waiter 0 runs into the
+   lock (not enabled), the clock advances, a spurious move and thread 2's first step happen; nothing is logged yet and
+   the flag is still down: premises of fine_signal_accesses_under_mutex / fine_flag_stable *)
+Definition fine_sig_sched := runs 1%nat 2%nat ++ runs 0%nat 2%nat ++ [Clock 5; Spurious 0%nat] ++ runs 2%nat 1%nat.
+Definition fine_sig_mid := freach sig_sc all_started false 0 fine_sig_sched.
+Example ex_fine_signal_pending :
+  (fp fine_sig_mid 1%nat, m_owner (mtx (ps (base fine_sig_mid)) SM), pc (tc (base fine_sig_mid) 0%nat), enabled (base fine_sig_mid) 0%nat,
+   sigf (base fine_sig_mid), trace (base fine_sig_mid), now (ps (base fine_sig_mid)), foreign_unlock fine_sig_mid)
+  = (FSigWrite true SigSetBcast, Some 1%nat, SigWaitLock None, false, false, [], 5, false).
+Proof. vm_compute. reflexivity. Qed.
+(* the fine run continued to the end, and the coarse run of fine_granularity_adds_no_behaviours: the same moves minus the
+   access moves (here the histories are even equal) *)
+Example ex_fine_signal_history :
+  trace (base (freach sig_sc all_started false 0 (fine_sig_sched ++ runs 1%nat 3%nat ++ runs 0%nat 3%nat ++ runs 2%nat 3%nat)))
+  = [EvRet 2%nat SigWait 1; EvRet 0%nat SigWait 1; EvRet 1%nat SigSet 0; EvSigWrite 1%nat true]
+  /\ trace (reach sig_sc all_started false 0 (fine_sig_sched ++ runs 1%nat 2%nat ++ runs 0%nat 2%nat ++ runs 2%nat 2%nat))
+  = [EvRet 2%nat SigWait 1; EvRet 0%nat SigWait 1; EvRet 1%nat SigSet 0; EvSigWrite 1%nat true].
+Proof. vm_compute. split; reflexivity. Qed.
+
+(* equality of histories is FALSE: thread 0 = Monitor::set locks MM (write pending), thread 1's tryLock fails, then thread 0
+   writes.  The fine history has the failed tryLock BEFORE the flag write; in the coarse machine the tryLock can fail only
+   after thread 0's lock move, which has already logged EvMonSet.  The two histories differ by one swap of independent events *)
+Definition try_sc := sc3 [MonSet] [MonTryLock] [].
+Definition fine_try_mid := freach try_sc all_started false 0 (runs 0%nat 2%nat ++ runs 1%nat 2%nat).
+Example ex_fine_monitor_pending :
+  (fp fine_try_mid 0%nat, m_owner (mtx (ps (base fine_try_mid)) MM), monf (base fine_try_mid), trace (base fine_try_mid), foreign_unlock fine_try_mid)
+  = (FMonWrite, Some 0%nat, false, [EvRet 1%nat MonTryLock 0], false).
+Proof. vm_compute. reflexivity. Qed.
+Example ex_fine_log_differs :
+  trace (base (freach try_sc all_started false 0 (runs 0%nat 2%nat ++ runs 1%nat 2%nat ++ runs 0%nat 1%nat))) = [EvMonSet 0%nat; EvRet 1%nat MonTryLock 0]
+  /\ trace (reach try_sc all_started false 0 (runs 0%nat 2%nat ++ runs 1%nat 2%nat)) = [EvRet 1%nat MonTryLock 0; EvMonSet 0%nat].
+Proof. vm_compute. split; reflexivity. Qed.
+Example ex_fine_log_swap : tr_eq [EvRet 1%nat MonTryLock 0; EvMonSet 0%nat] [EvMonSet 0%nat; EvRet 1%nat MonTryLock 0].
+Proof. apply tr_swap. vm_compute. reflexivity. Qed.
+
+(* the clock value of a timed Monitor wait is the one at the return of the condition wait, not at the (later) flag read:
+   the wait times out at 1 ms, the clock advances to 7 ms before the thread reads the flag; both machines log 1000000 *)
+Definition tmo1_sc := sc3 [MonLock; MonWaitT 1] [] [].
+Definition fine_tmo_sched := runs 0%nat 4%nat ++ [Clock 1000000; Timeout 0%nat] ++ runs 0%nat 1%nat ++ [Clock 7000000].
+Example ex_fine_timed_pending :
+  (fp (freach tmo1_sc all_started false 0 fine_tmo_sched) 0%nat, now (ps (base (freach tmo1_sc all_started false 0 fine_tmo_sched))))
+  = (FMonRead (Some (0, 1000000)) ETIMEDOUT 1000000, 7000000).
+Proof. vm_compute. reflexivity. Qed.
+Example ex_fine_timed_history :
+  trace (base (freach tmo1_sc all_started false 0 (fine_tmo_sched ++ runs 0%nat 1%nat)))
+  = [EvRet 0%nat (MonWaitT 1) 0; EvTimedFalse 0%nat (MonWaitT 1) 0 1000000; EvRet 0%nat MonLock 0]
+  /\ trace (reach tmo1_sc all_started false 0 fine_tmo_sched)
+  = [EvRet 0%nat (MonWaitT 1) 0; EvTimedFalse 0%nat (MonWaitT 1) 0 1000000; EvRet 0%nat MonLock 0].
+Proof. vm_compute. split; reflexivity. Qed.
+
+(* two pending accesses at once (one per flag); fine_completes: two more moves make the state quiescent, the history grows;
+   the coarse history differs by swaps only *)
+Definition two_sc := sc3 [SigSet] [MonSet] [MonTryLock].
+Definition fine_two := freach two_sc all_started false 0 (runs 0%nat 2%nat ++ runs 1%nat 2%nat ++ runs 2%nat 2%nat).
+Example ex_fine_two_pending :
+  (fp fine_two 0%nat, fp fine_two 1%nat, trace (base fine_two), trace (base (frun_all fine_two [Run 1%nat; Run 0%nat])),
+   trace (reach two_sc all_started false 0 (runs 0%nat 2%nat ++ runs 1%nat 2%nat ++ runs 2%nat 2%nat)))
+  = (FSigWrite true SigSetBcast, FMonWrite, [EvRet 2%nat MonTryLock 0],
+     [EvSigWrite 0%nat true; EvMonSet 1%nat; EvRet 2%nat MonTryLock 0],
+     [EvRet 2%nat MonTryLock 0; EvMonSet 1%nat; EvSigWrite 0%nat true]).
+Proof. vm_compute. reflexivity. Qed.
+Example ex_fine_all_ok :
+  all_ok false 0 (trace (base (frun_all fine_two [Run 1%nat; Run 0%nat]))) = [true; true; true; true; true; true].
+Proof. vm_compute. reflexivity. Qed.
+(* the race of fine_monitor_race_under_foreign_unlock at the moment both waiters stand in front of their read: two threads
+   at a Monitor access, the second owns MM, the first does not any more *)
+Definition race_mid := freach race_scripts all_started false 0 (firstn 19 race_sched).
+Example ex_fine_race_two_at_access :
+  (fp race_mid 0%nat, fp race_mid 1%nat, m_owner (mtx (ps (base race_mid)) MM), foreign_unlock race_mid)
+  = (FMonRead None 0 0, FMonRead None 0 0, Some 1%nat, true).
 Proof. vm_compute. reflexivity. Qed.
